@@ -1,7 +1,6 @@
 package main
 
 import (
-	"fmt"
 	"bytes"
 	"crypto/ecdsa"
 	"crypto/ed25519"
@@ -10,6 +9,7 @@ import (
 	"crypto/sha512"
 	"crypto/x509"
 	"encoding/binary"
+	"fmt"
 	"net/http"
 	"sort"
 	"sync"
@@ -146,6 +146,7 @@ func genC06(r *Rng, tier string) []Case {
 	}
 	for i := 0; i < 2; i++ {
 		cs = append(cs, Case{"bsig_two_bundles", []Sx{Zi(int64(i))}})
+		cs = append(cs, Case{"bsig_add_retry", []Sx{Zi(int64(i))}})
 	}
 	// signer histories
 	hosts := []string{"example.com", "a.test", "www.example.org", "uncovered.invalid"}
@@ -168,6 +169,10 @@ func genC06(r *Rng, tier string) []Case {
 		dur := int64([]int{3600, 604800, 1, 604801}[r.Intn(4)])
 		if bi%3 != 0 {
 			dur = int64([]int{3600, 604800}[r.Intn(2)])
+		}
+		if bi%4 == 3 { // a week that contains a daylight-saving change (167 h / 169 h of local time): 7 days are 604800 s
+			date = []int64{1709830800, 1730307600}[(bi/4)%2] // 2024-03-07 17:00Z (before Mar 10), 2024-10-30 17:00Z (before Nov 3)
+			dur = []int64{604800, 604801, 604800 + 3600, 604800 - 3600}[r.Intn(4)]
 		}
 		nsigners := 1 + r.Intn(3)
 		leafIdx := func(si int) int { return []int{0, 1, 3}[(bi+si)%3] }
@@ -351,8 +356,16 @@ func genC06(r *Rng, tier string) []Case {
 				q := r.Intn(len(sg.Sig) * 8)
 				ms(func(s *bundle.Signatures) { s.VouchedSubsets[vi].Sig[q/8] ^= 1 << uint(q%8) })
 			}
-			ms(func(s *bundle.Signatures) { s.VouchedSubsets[vi].Signed = s.VouchedSubsets[vi].Signed[:len(sg.Signed)-1] })
+			ms(func(s *bundle.Signatures) {
+				s.VouchedSubsets[vi].Signed = s.VouchedSubsets[vi].Signed[:len(sg.Signed)-1]
+			})
 			ms(func(s *bundle.Signatures) { s.VouchedSubsets[vi].Sig = nil })
+			for _, pad := range [][]byte{{0}, {0, 0, 0}, {1}, {0x30, 0}} { // bytes after the DER signature
+				pad := pad
+				ms(func(s *bundle.Signatures) {
+					s.VouchedSubsets[vi].Sig = append(append([]byte{}, s.VouchedSubsets[vi].Sig...), pad...)
+				})
+			}
 			ms(func(s *bundle.Signatures) {
 				s.Authorities[0], s.Authorities[len(s.Authorities)-1] = s.Authorities[len(s.Authorities)-1], s.Authorities[0]
 			})
